@@ -41,6 +41,10 @@ def run(ctx):
     c01.p15(ctx, R)
     p10(ctx, R)
     p11(ctx, R)
+    # a test with an optional leading argument is recorded completely before the enclosing list goes on (P16 / P17 of C01)
+    c01.p16(ctx, R)
+    from .p17 import p17
+    p17(ctx, R)
     # (G6: a tag written in another letter case is the same tag: what is recorded for it (its parameter) must not depend on the spelling)
     t3p(ctx, R)
     # the tree of THIS parse only: every parser attribute a handler writes (incl. result) is re-initialised per parse (rule H2 of C13)
